@@ -87,8 +87,8 @@ class GatewarePHY(Elaboratable):
     """
 
     OP_MODE_NORMAL      = 0b00
-    OP_MODE_NONDRIVING  = 0b10
-    OP_MODE_NO_ENCODING = 0b01
+    OP_MODE_NONDRIVING  = 0b01
+    OP_MODE_NO_ENCODING = 0b10
 
     def __init__(self, *, io):
         self._io = io
